@@ -25,8 +25,8 @@ theorem dropRefs_keep (cfg : Config) (gone : List String) (sh : Shape)
   split at hs
   · simp only [List.mem_append, List.mem_filter] at hs
     rcases hs with h | h
-    · simpa using h.2
-    · simpa using h.2
+    · have := h.2; simp only [Bool.and_eq_true, Bool.not_eq_true'] at this; simpa using this.1
+    · have := h.2; simp only [Bool.and_eq_true, Bool.not_eq_true'] at this; simpa using this.1
   · rename_i hi
     have hi' : cfg.inverse = false := by simpa using hi
     simp only [List.mem_append, List.mem_filter] at hs
@@ -34,7 +34,7 @@ theorem dropRefs_keep (cfg : Config) (gone : List String) (sh : Shape)
     · have := hinv hi' s h.1
       rw [this] at h
       simp at h
-    · simpa using h.2
+    · have := h.2; simp only [Bool.and_eq_true, Bool.not_eq_true'] at this; simpa using this.1
 
 theorem cleanEmptyAux_no_dangling (cfg : Config) (N : List String) (fuel : Nat) (shapes : List Shape)
     (hinv : cfg.inverse = false → ∀ sh ∈ shapes, ∀ s ∈ sh.stmts, s.inverse = false)
